@@ -166,7 +166,20 @@ pub mod libc_model {
         TLS[(key % 8) as usize]
     }
 
+    // fd-level write model: records (fd, count) in the event log as 0x600 | fd<<4 | count
+    #[no_mangle]
+    pub unsafe extern "C" fn write(fd: c_int, _buf: *const c_void, count: usize) -> isize {
+        super::ev_push(0x600 | ((fd as u32) & 0xf) << 4 | (count as u32 & 0xf));
+        count as isize
+    }
+    #[no_mangle]
+    pub unsafe extern "C" fn close(_fd: c_int) -> c_int {
+        0
+    }
     pub fn link() {
+        let f7: unsafe extern "C" fn(c_int, *const c_void, usize) -> isize = write;
+        let f8: unsafe extern "C" fn(c_int) -> c_int = close;
+        std::hint::black_box((f7, f8));
         let f1: unsafe extern "C" fn() -> *mut c_int = __errno_location;
         let f2: unsafe extern "C" fn(c_long, ...) -> c_long = syscall;
         let f3: unsafe extern "C" fn(*mut c_uint, Option<unsafe extern "C" fn(*mut c_void)>) -> c_int = pthread_key_create;
@@ -339,4 +352,11 @@ pub fn opaque_box<T>() -> Box<T> {
         let layout = std::alloc::Layout::new::<T>();
         Box::from_raw(std::alloc::alloc(layout) as *mut T)
     }
+}
+
+/// A `std::fs::File` over model file descriptor `fd` (never a real descriptor: the libc `write`
+/// / `close` models above receive it).
+pub fn file_from_fd(fd: i32) -> std::fs::File {
+    use std::os::fd::FromRawFd;
+    unsafe { std::fs::File::from_raw_fd(fd) }
 }
